@@ -30,6 +30,8 @@ type Handlers struct {
 	Stop   func(p *Plugin, pod *api.PodSandbox, c *api.Container) ([]*api.ContainerUpdate, error)
 	Sync   func(p *Plugin, pods []*api.PodSandbox, ctrs []*api.Container) ([]*api.ContainerUpdate, error)
 	Event  func(p *Plugin, ev string, pod *api.PodSandbox, c *api.Container) error
+	// Configure overrides the default (return p.Mask)
+	Configure func(p *Plugin, cfg, runtime, version string) (api.EventMask, error)
 }
 
 // Plugin is a real stub-based plugin implementing every handler interface.
@@ -38,6 +40,7 @@ type Plugin struct {
 	Idx    string // two-digit index
 	Pos    int    // position in the driver's own numbering
 	Stub   stub.Stub
+	Mask   api.EventMask // subscription asked for at configuration time (0 = everything implemented)
 	H      *Handlers
 	Closed atomic.Int32
 	probes atomic.Int32
@@ -73,6 +76,48 @@ func (p *Plugin) StopContainer(_ context.Context, pod *api.PodSandbox, c *api.Co
 	return nil, nil
 }
 
+func (p *Plugin) Configure(_ context.Context, cfg, runtime, version string) (api.EventMask, error) {
+	if p.H != nil && p.H.Configure != nil {
+		return p.H.Configure(p, cfg, runtime, version)
+	}
+	return p.Mask, nil
+}
+
+func (p *Plugin) event(ev string, pod *api.PodSandbox, c *api.Container) error {
+	if p.H != nil && p.H.Event != nil {
+		return p.H.Event(p, ev, pod, c)
+	}
+	return nil
+}
+
+func (p *Plugin) UpdatePodSandbox(_ context.Context, pod *api.PodSandbox, _, _ *api.LinuxResources) error {
+	return p.event("UpdatePodSandbox", pod, nil)
+}
+func (p *Plugin) PostUpdatePodSandbox(_ context.Context, pod *api.PodSandbox) error {
+	return p.event("PostUpdatePodSandbox", pod, nil)
+}
+func (p *Plugin) StopPodSandbox(_ context.Context, pod *api.PodSandbox) error {
+	return p.event("StopPodSandbox", pod, nil)
+}
+func (p *Plugin) RemovePodSandbox(_ context.Context, pod *api.PodSandbox) error {
+	return p.event("RemovePodSandbox", pod, nil)
+}
+func (p *Plugin) PostCreateContainer(_ context.Context, pod *api.PodSandbox, c *api.Container) error {
+	return p.event("PostCreateContainer", pod, c)
+}
+func (p *Plugin) StartContainer(_ context.Context, pod *api.PodSandbox, c *api.Container) error {
+	return p.event("StartContainer", pod, c)
+}
+func (p *Plugin) PostStartContainer(_ context.Context, pod *api.PodSandbox, c *api.Container) error {
+	return p.event("PostStartContainer", pod, c)
+}
+func (p *Plugin) PostUpdateContainer(_ context.Context, pod *api.PodSandbox, c *api.Container) error {
+	return p.event("PostUpdateContainer", pod, c)
+}
+func (p *Plugin) RemoveContainer(_ context.Context, pod *api.PodSandbox, c *api.Container) error {
+	return p.event("RemoveContainer", pod, c)
+}
+
 const ProbePod = "verif-probe-pod"
 
 func (p *Plugin) RunPodSandbox(_ context.Context, pod *api.PodSandbox) error {
@@ -97,6 +142,8 @@ type Rig struct {
 	Pods  []*api.PodSandbox
 	Ctrs  []*api.Container
 	OnUpd func(context.Context, []*api.ContainerUpdate) ([]*api.ContainerUpdate, error)
+	// SyncOverride replaces the default SyncFn (which hands out Pods/Ctrs)
+	SyncOverride func(context.Context, adaptation.SyncCB) error
 }
 
 // New creates and starts an Adaptation listening on a socket in a fresh directory.
@@ -107,6 +154,9 @@ func New(opts ...adaptation.Option) (*Rig, error) {
 	}
 	r := &Rig{Dir: dir, Socket: filepath.Join(dir, "nri.sock")}
 	syncFn := func(ctx context.Context, cb adaptation.SyncCB) error {
+		if r.SyncOverride != nil {
+			return r.SyncOverride(ctx, cb)
+		}
 		r.mu.Lock()
 		pods, ctrs := r.Pods, r.Ctrs
 		r.mu.Unlock()
@@ -139,7 +189,12 @@ func New(opts ...adaptation.Option) (*Rig, error) {
 
 // AddPlugin starts a stub plugin and waits until its Start returned.
 func (r *Rig) AddPlugin(name, idx string, pos int, h *Handlers) (*Plugin, error) {
-	p := &Plugin{Name: name, Idx: idx, Pos: pos, H: h}
+	return r.AddPluginMask(name, idx, pos, 0, h)
+}
+
+// AddPluginMask is AddPlugin with a configuration-time subscription mask.
+func (r *Rig) AddPluginMask(name, idx string, pos int, mask api.EventMask, h *Handlers) (*Plugin, error) {
+	p := &Plugin{Name: name, Idx: idx, Pos: pos, H: h, Mask: mask}
 	st, err := stub.New(p,
 		stub.WithPluginName(name), stub.WithPluginIdx(idx),
 		stub.WithSocketPath(r.Socket),
@@ -151,7 +206,9 @@ func (r *Rig) AddPlugin(name, idx string, pos int, h *Handlers) (*Plugin, error)
 	if err := st.Start(context.Background()); err != nil {
 		return nil, fmt.Errorf("start %s: %w", p.FullName(), err)
 	}
+	r.mu.Lock()
 	r.Plugins = append(r.Plugins, p)
+	r.mu.Unlock()
 	return p, nil
 }
 
